@@ -80,6 +80,7 @@ where Assets: miniscript::Satisfier<Pk>
         &format!("J complete {} {} {} {} {} {} {}", ctx.name(), w, aw, sane as u8, allpre as u8, sn(mall), sn(nonmall)),
         "ok",
     );
+    out.line(&format!("J complete3 {} {} {} {}", ctx.name(), w, aw, sn(nonmall)), "ok");
     out.line(&format!("J tablecovers {} {} {} {}", ctx.name(), w, aw, sn(mall)), "ok");
     out.count(&format!("verdict mall={} nonmall={} sane={}", sn(mall), sn(nonmall), sane as u8));
 }
@@ -163,6 +164,160 @@ fn extra_corpus(ctx: CtxK) -> Vec<Node> {
     v
 }
 
+
+/// COMPOSITE fragments whose DISSATISFACTION is only visible through a parent that takes its
+/// other arm: each `F` (keys 0..3) under or_d / andor / or_b / thresh(1,..) next to key 5 (and 6)
+fn dissat_corpus(ctx: CtxK) -> Vec<Node> {
+    use Node::*;
+    let tap = ctx == CtxK::Tap;
+    let k = |i: u32| if tap { 200 + i } else { i };
+    let bx = |n: Node| Box::new(n);
+    let pk = |i: u32| Check(bx(PkK(k(i))));
+    let v = |n: Node| Verify(bx(n));
+    let fs: Vec<Node> = vec![
+        AndB(bx(pk(0)), bx(Alt(bx(pk(1))))),
+        AndB(bx(pk(0)), bx(Alt(bx(Hash(HK::Sha256, 0))))),
+        AndB(bx(AndOr(bx(pk(0)), bx(pk(1)), bx(pk(2)))), bx(Alt(bx(pk(3))))),
+        AndOr(bx(pk(0)), bx(pk(1)), bx(pk(2))),
+        AndOr(bx(pk(0)), bx(AndV(bx(v(pk(1))), bx(Older(10)))), bx(pk(2))),
+        OrB(bx(pk(0)), bx(Alt(bx(pk(1))))),
+        OrD(bx(pk(0)), bx(pk(1))),
+        OrD(bx(pk(0)), bx(OrB(bx(pk(1)), bx(Alt(bx(pk(2))))))),
+        OrI(bx(pk(0)), bx(pk(1))),
+        OrI(bx(pk(0)), bx(False)),
+        OrI(bx(False), bx(pk(1))),
+        Thresh(1, vec![pk(0), Swap(bx(pk(1))), Swap(bx(pk(2)))]),
+        Thresh(2, vec![pk(0), Swap(bx(pk(1))), Swap(bx(pk(2)))]),
+        Thresh(2, vec![pk(0), Swap(bx(pk(1)))]),
+        Thresh(3, vec![pk(0), Swap(bx(pk(1))), Alt(bx(OrD(bx(pk(2)), bx(pk(3)))))]),
+        DupIf(bx(v(pk(0)))),
+        DupIf(bx(v(AndV(bx(v(pk(0))), bx(pk(1)))))),
+        NonZero(bx(AndV(bx(v(pk(0))), bx(pk(1))))),
+        NonZero(bx(AndB(bx(pk(0)), bx(Alt(bx(pk(1))))))),
+        ZeroNotEqual(bx(AndB(bx(pk(0)), bx(Alt(bx(pk(1))))))),
+    ];
+    let mut out = vec![];
+    for f in fs {
+        out.push(OrD(bx(f.clone()), bx(pk(5))));
+        out.push(AndOr(bx(f.clone()), bx(pk(6)), bx(pk(5))));
+        out.push(OrB(bx(f.clone()), bx(Alt(bx(pk(5))))));
+        out.push(Thresh(1, vec![f.clone(), Alt(bx(pk(5)))]));
+        out.push(OrC(bx(f.clone()), bx(v(pk(5)))).clone());
+        // the composite as the RIGHT arm's sibling: and_b(F', a:pk) dissatisfied through F
+        out.push(OrD(bx(AndB(bx(f.clone()), bx(Alt(bx(pk(6)))))), bx(pk(5))));
+    }
+    // or_c is V: close it
+    out.into_iter().map(|n| match n { OrC(..) => AndV(bx(n), bx(True)), other => other }).collect()
+}
+
+/// extra designated fragments: two distinct same-unit locks under a threshold, wide multisigs
+fn lock_multi_corpus(ctx: CtxK) -> Vec<Node> {
+    use Node::*;
+    let tap = ctx == CtxK::Tap;
+    let b = if tap { 200 } else { 0 };
+    let bx = |n: Node| Box::new(n);
+    let pk = |i: u32| Check(bx(PkK(b + i)));
+    let sln = |n: Node| Swap(bx(OrI(bx(False), bx(ZeroNotEqual(bx(n))))));
+    let mut c = vec![
+        Thresh(2, vec![pk(0), sln(After(100)), sln(After(200))]),
+        Thresh(3, vec![pk(0), sln(After(200)), sln(After(100))]),
+        Thresh(2, vec![pk(0), sln(Older(10)), sln(Older(20))]),
+        Thresh(3, vec![pk(0), Swap(bx(pk(1))), sln(Older(20)), sln(Older(10))]),
+        // non-malleable threshold with signature-free AVAILABLE children and k < n
+        Thresh(2, vec![pk(0), Swap(bx(pk(1))), sln(Older(10))]),
+        Thresh(1, vec![pk(0), Swap(bx(pk(1))), sln(Older(10))]),
+        Thresh(2, vec![pk(0), Swap(bx(pk(1))), Alt(bx(Hash(HK::Sha256, 0)))]),
+        Thresh(2, vec![pk(0), Swap(bx(pk(1))), Swap(bx(NonZero(bx(AndV(bx(Verify(bx(Hash(HK::Sha256, 0)))), bx(True))))))]),
+        Thresh(2, vec![pk(0), sln(Older(10)), Alt(bx(Hash(HK::Hash160, 1)))]),
+    ];
+    // wide multisigs: the signing keys (ids b..b+9) come LAST in a list of 20
+    let wide: Vec<u32> = (10..20).chain(0..10).map(|i| b + i).collect();
+    if tap {
+        c.push(MultiA(1, wide.clone()));
+        c.push(MultiA(3, wide.clone()));
+        c.push(MultiA(2, (0..5).map(|i| b + i).collect()));
+        c.push(MultiA(3, (0..5).map(|i| b + i).collect()));
+    } else if ctx == CtxK::Segwitv0 {
+        c.push(Multi(1, wide.clone()));
+        c.push(Multi(3, wide.clone()));
+        c.push(SortedMulti(2, wide.clone()));
+        c.push(Multi(3, (0..5).map(|i| b + i).collect()));
+    } else {
+        c.push(Multi(3, (0..5).map(|i| b + i).collect()));
+    }
+    c
+}
+
+/// `D key` lines for the extra key atoms of the wide multisigs (ids 10..19 / 210..219; nobody
+/// can sign for them: the `Assets` satisfier only knows ids 0..9 / 100..103 / 200..209)
+fn emit_wide_key_defs(out: &mut Out) {
+    use miniscript::bitcoin::hashes::{hash160, Hash};
+    for id in 10..20u32 {
+        let k = ast::full_key(id);
+        let ser = k.to_bytes();
+        out.line(&format!("D key {} {} {} {}", id, ast::hex(&ser), ast::hex(&ast::bip67_sort(&k)),
+            ast::hex(hash160::Hash::hash(&ser).as_byte_array())), "ok");
+    }
+    for id in 210..220u32 {
+        let ser = ast::xonly_key(id).serialize();
+        out.line(&format!("D key {} {} {} {}", id, ast::hex(&ser), ast::hex(&ser),
+            ast::hex(hash160::Hash::hash(&ser).as_byte_array())), "ok");
+    }
+}
+
+/// designated corpora, judged in EVERY tier with designated assets: all transaction values on
+/// both sides of every lock, every subset of up to 5 signing keys (capped per node), all
+/// preimage subsets, all raw key / signature switches
+fn run_designated(out: &mut Out, thorough: bool, rng: &mut Rng) -> u64 {
+    let mut n = 0u64;
+    for ctx in CtxK::ALL {
+        // (a) composite dissatisfactions: only key 5 / keys 5+6 / everything / everything but 5
+        for node in dissat_corpus(ctx) {
+            let full = Assets::full(&node);
+            let z = if ctx == CtxK::Tap { 205 } else { 5 };
+            let mut sets: Vec<Assets> = vec![];
+            let only = |ks: &[u32]| { let mut a = Assets { pre: full.pre.clone(), older: full.older.clone(), ..Default::default() };
+                for k in ks { if *k >= 200 { a.schnorr.insert(*k, 64); } else { a.ecdsa.insert(*k); } } a };
+            sets.push(only(&[z]));
+            sets.push(only(&[z, z + 1]));
+            sets.push(full.clone());
+            let mut no_z = full.clone(); no_z.ecdsa.remove(&z); no_z.schnorr.remove(&z); sets.push(no_z);
+            let mut no_pre = only(&[z]); no_pre.pre.clear(); no_pre.older.clear(); sets.push(no_pre);
+            for a in sets {
+                n += 1;
+                let sq = a.older.iter().cloned().max().unwrap_or(0xffff_fffe);
+                with_ctx!(ctx, one(out, ctx, &node, 0, sq, &a));
+            }
+        }
+        // (b) the shared dimension corpus + locks under thresholds + wide multisigs
+        let mut nodes = ast::dimension_corpus(ctx);
+        nodes.extend(lock_multi_corpus(ctx));
+        for node in nodes {
+            node.count_frags(out);
+            let full = Assets::full(&node);
+            let all_keys: Vec<u32> = full.ecdsa.iter().cloned().chain(full.schnorr.keys().cloned()).collect();
+            let nk = all_keys.len().min(10) as u32;
+            let np = full.pre.len().min(2) as u32;
+            let nr = full.rawpk.len().min(2) as u32;
+            for (lt, sq) in tx_values(&node) {
+                for km in 0..(1u32 << nk) {
+                    let pc = km.count_ones();
+                    // more than 5 keys: none, singletons, pairs at the ends, all-but-one, all, a random slice
+                    if nk > 5 && !(pc <= 1 || pc + 1 >= nk || (thorough && rng.below(8) == 0) || rng.below(64) == 0) { continue; }
+                    for pm in 0..(1u32 << np) {
+                        for rm in 0..(1u32 << (2 * nr)) {
+                            n += 1;
+                            let a = assets_for(&node, lt, sq, km, pm, rm);
+                            with_ctx!(ctx, one(out, ctx, &node, lt, sq, &a));
+                        }
+                    }
+                }
+            }
+        }
+    }
+    n
+}
+
 /* ---------------------------------------------------------------- descriptor level */
 
 #[derive(Clone, Debug)]
@@ -186,6 +341,9 @@ fn parse_shape(s: &str) -> Shape {
     }
     let mut i = 0;
     go(s.as_bytes(), &mut i)
+}
+fn shape_depths(s: &Shape, d: usize, acc: &mut Vec<usize>) {
+    match s { Shape::Leaf(_) => acc.push(d), Shape::Br(l, r) => { shape_depths(l, d + 1, acc); shape_depths(r, d + 1, acc); } }
 }
 fn shape_leaves(s: &Shape) -> usize { match s { Shape::Leaf(_) => 1, Shape::Br(l, r) => shape_leaves(l) + shape_leaves(r) } }
 
@@ -271,10 +429,19 @@ fn dcheck(out: &mut Out, c: &DCase, da: &DAssets, judge_spends: bool) {
         res[mi] = r.is_some();
         if c.wrap == "tr" {
             // which spend the leaf loop picked, read off the produced witness
+            // (script AND depth from the control block length: the same leaf may sit at two depths;
+            // exact duplicates at one depth have identical witnesses - the later one is named, as
+            // the loop's tie rule does)
+            let mut depths = vec![];
+            if c.shape != "-" { shape_depths(&parse_shape(&c.shape), 0, &mut depths); }
             let choice = match &r {
                 None => "none".to_string(),
                 Some((w, _)) if w.len() == 1 => "key".to_string(),
-                Some((w, _)) => match leaf_scripts.iter().position(|s| *s == w[w.len() - 2]) { Some(i) => format!("leaf:{}", i), None => "leaf:?".to_string() },
+                Some((w, _)) => {
+                    let cb_depth = (w[w.len() - 1].len().saturating_sub(33)) / 32;
+                    match (0..leaf_scripts.len()).rev().find(|i| leaf_scripts[*i] == w[w.len() - 2] && depths[*i] == cb_depth) {
+                        Some(i) => format!("leaf:{}", i), None => "leaf:?".to_string() }
+                }
             };
             out.line(&format!("C trbest {} {} {} {} {} {}", mode, c.internal.unwrap(), c.shape, leaves_w, lean_assets(c, da).wire(), da.tapkey as u8), &choice);
         }
@@ -350,6 +517,12 @@ fn run_desc(out: &mut Out, thorough: bool, rng: &mut Rng) {
         pk(100),
         OrD(bx(pk(100)), bx(pkh(101))),
         Multi(1, vec![100, 2]),
+        // ONE point in both encodings (ids 0 and 100 share the secret): signing for one signs for both
+        OrD(bx(pk(0)), bx(pk(100))),
+        OrD(bx(pk(100)), bx(pk(0))),
+        OrB(bx(pkh(100)), bx(Alt(bx(pkh(0))))),
+        Multi(2, vec![0, 100, 1]),
+        SortedMulti(1, vec![100, 0]),
     ];
     let mut cases: Vec<DCase> = vec![];
     for w in [Wrap::Wsh, Wrap::ShWsh, Wrap::Sh, Wrap::Bare] {
@@ -396,7 +569,9 @@ fn run_desc(out: &mut Out, thorough: bool, rng: &mut Rng) {
             let mut ws: Vec<String> = leaves.iter().map(|l| l.wire()).collect();
             ws.sort(); ws.dedup();
             if ws.len() != leaves.len() { out.count("tr assignment with repeated leaf skipped"); continue; }
-            match dcase_tr(9, shape, &leaves) { Some(c) => cases.push(c), None => out.count("desc not built tr") }
+            // internal keys of both parities (ids 0, 2, 4, 7, 8 are 03-prefixed)
+            let internal = [9u32, 0, 2, 7, 4, 8][cases.len() % 6];
+            match dcase_tr(internal, shape, &leaves) { Some(c) => cases.push(c), None => out.count("desc not built tr") }
             if n == 0 { break; }
         }
     }
@@ -407,6 +582,26 @@ fn run_desc(out: &mut Out, thorough: bool, rng: &mut Rng) {
             Swap(bx(NonZero(bx(AndV(bx(Verify(bx(Hash(HK::Sha256, 0)))), bx(True))))))]);
         for (shape, leaves) in [("0", vec![mode_leaf.clone()]), ("{0,1}", vec![tpk(5), mode_leaf.clone()]), ("{0,1}", vec![mode_leaf.clone(), tpk(5)])] {
             match dcase_tr(9, shape, &leaves) { Some(c) => cases.push(c), None => out.count("desc not built tr (designated)") }
+        }
+    }
+    // designated: DUPLICATE leaves and the same leaf at two depths (the loop must neither skip
+    // nor mis-rank them; the shallower copy is cheaper, equal copies tie)
+    {
+        let a = tpk(0);
+        let b2 = AndV(bx(Verify(bx(tpk(1)))), bx(Older(10)));
+        let m = MultiA(2, vec![202, 203]);
+        let dup: Vec<(&str, Vec<Node>, u32)> = vec![
+            ("{0,1}", vec![a.clone(), a.clone()], 9),
+            ("{0,{1,2}}", vec![a.clone(), b2.clone(), a.clone()], 0),
+            ("{0,{1,2}}", vec![b2.clone(), a.clone(), a.clone()], 2),
+            ("{{0,1},2}", vec![a.clone(), b2.clone(), a.clone()], 7),
+            ("{{0,1},2}", vec![m.clone(), m.clone(), a.clone()], 4),
+            ("{{0,1},{2,3}}", vec![a.clone(), m.clone(), m.clone(), a.clone()], 8),
+            ("{0,{1,{2,3}}}", vec![b2.clone(), a.clone(), b2.clone(), a.clone()], 9),
+            ("{{{0,1},2},3}", vec![m.clone(), a.clone(), b2.clone(), m.clone()], 0),
+        ];
+        for (shape, leaves, ik) in dup {
+            match dcase_tr(ik, shape, &leaves) { Some(c) => cases.push(c), None => out.count("desc not built tr (duplicates)") }
         }
     }
     let mut n_cases = 0u64;
@@ -423,10 +618,161 @@ fn run_desc(out: &mut Out, thorough: bool, rng: &mut Rng) {
     out.note("descriptor_cases", n_cases.to_string());
 }
 
+/* ---------------------------------------------------------------- plan::Assets as the provider */
+
+use crate::c17;
+
+fn p_after_ok(lt: u32, n: u32) -> bool { (lt < 500_000_000) == (n < 500_000_000) && n <= lt }
+fn p_older_ok(sq: u32, n: u32) -> bool { (sq & (1 << 22)) == (n & (1 << 22)) && (n & 0xffff) <= (sq & 0xffff) }
+
+/// what the specification table may use, given the library's `plan::Assets` described by `pa`:
+/// a key is available iff a key source COVERS it in the documented sense (same fingerprint, the
+/// source's path or that path extended by exactly one child number - `Src::covers`, re-stated
+/// in c17.rs from the documentation, not taken from plan.rs); a lock iff the assets' maximum of
+/// that kind implies it
+fn lean_assets_pa(dd: &c17::DD, leaves: &[Node], pa: &c17::PA, tap: bool) -> Assets {
+    let mut a = Assets::default();
+    for n in leaves {
+        let mut ks = vec![];
+        n.keys(&mut ks);
+        for k in ks {
+            let ent = c17::kent(k);
+            if let Some(src) = pa.srcs.iter().find(|s| s.covers(ent) && (if tap { s.leaves != c17::Leaves::None } else { s.ecdsa })) {
+                if tap { a.schnorr.insert(k, if src.sighash_default { 64 } else { 65 }); } else { a.ecdsa.insert(k); }
+            }
+        }
+        let (mut af, mut ol) = (vec![], vec![]);
+        n.locks(&mut af, &mut ol);
+        for x in af { if pa.abs.map(|m| p_after_ok(m, x)).unwrap_or(false) { a.after.insert(x); } }
+        for x in ol { if pa.rel.map(|m| p_older_ok(m, x)).unwrap_or(false) { a.older.insert(rel_canon(x)); } }
+    }
+    a.pre = pa.pre.clone();
+    let _ = dd;
+    a
+}
+
+/// `Descriptor::into_plan{,_mall}` driven by the library's own `plan::Assets` (key sources in
+/// every relation to the descriptor's keys, lock maxima below / at / strictly above the script's
+/// locks and in the other unit), judged against the specification table (`J dplan`)
+fn run_plan_assets(out: &mut Out, thorough: bool) {
+    use Node::*;
+    use c17::{Rel, Src, PA};
+    let bx = |n: Node| Box::new(n);
+    let pk = |i: u32| Check(bx(PkK(i)));
+    let tpk = |i: u32| Check(bx(PkK(200 + i)));
+    let v = |n: Node| Verify(bx(n));
+    // keys 0, 3, 6 have a depth-3 origin, 1, 4, 7 a depth-1 origin, 2, 5, 8 none (c17::ktable)
+    let scripts: Vec<Node> = vec![
+        pk(0),
+        OrD(bx(pk(0)), bx(pk(1))),
+        AndV(bx(v(pk(3))), bx(After(100))),
+        AndV(bx(v(pk(4))), bx(Older(10))),
+        AndV(bx(v(pk(0))), bx(AndV(bx(v(After(100))), bx(After(200))))),
+        OrD(bx(pk(1)), bx(AndV(bx(v(pk(6))), bx(After(500_000_100))))),
+        Multi(2, vec![0, 1, 3]),
+        Thresh(2, vec![pk(0), Swap(bx(pk(1))), Swap(bx(pk(2)))]),
+        AndOr(bx(pk(0)), bx(Older(4_194_305)), bx(pk(4))),
+        OrI(bx(AndV(bx(v(pk(3))), bx(Hash(HK::Sha256, 0)))), bx(pk(7))),
+    ];
+    let mut dds: Vec<(c17::DD, &'static str, Option<u32>, String, Vec<Node>)> = vec![];
+    for (w, name) in [(c17::Wrap::Wsh, "wsh"), (c17::Wrap::Sh, "sh"), (c17::Wrap::ShWsh, "shwsh")] {
+        for n in &scripts {
+            if w != c17::Wrap::Wsh && !thorough && n.size() > 4 { continue; }
+            if let Some(dd) = c17::dd_ms(w, n) { dds.push((dd, name, None, "0".into(), vec![n.clone()])); }
+        }
+    }
+    for (w, name, k) in [(c17::Wrap::Pkh, "pkh", 0u32), (c17::Wrap::Wpkh, "wpkh", 1), (c17::Wrap::ShWpkh, "shwpkh", 3), (c17::Wrap::Pkh, "pkh", 100)] {
+        if let Some(dd) = c17::dd_key(w, k) { dds.push((dd, name, None, "0".into(), vec![Check(bx(PkH(k)))])); }
+    }
+    // taproot (left combs, c17::dd_tr): internal keys 9 (no leaf uses it) and 6
+    let tleaves: Vec<Vec<Node>> = vec![
+        vec![tpk(0)],
+        vec![tpk(0), AndV(bx(v(tpk(1))), bx(Older(10)))],
+        vec![AndV(bx(v(tpk(3))), bx(After(100))), tpk(4), MultiA(2, vec![200, 201])],
+    ];
+    for (i, ls) in tleaves.iter().enumerate() {
+        let ik = if i % 2 == 0 { 9 } else { 6 };
+        let shape = match ls.len() { 1 => "0", 2 => "{0,1}", _ => "{{0,1},2}" };
+        if let Some(dd) = c17::dd_tr(ik, ls) { dds.push((dd, "tr", Some(ik), shape.into(), ls.clone())); }
+    }
+    let mut n = 0u64;
+    for (dd, wrap, ik, shape, leaves) in &dds {
+        let tap = *wrap == "tr";
+        let mut keys: Vec<u32> = vec![];
+        for l in leaves { l.keys(&mut keys); }
+        let mut keys: Vec<u32> = keys.into_iter().map(|k| if k >= 200 { k - 200 } else { k }).collect();
+        keys.sort(); keys.dedup();
+        let (mut af, mut ol) = (vec![], vec![]);
+        for l in leaves { l.locks(&mut af, &mut ol); }
+        // lock maxima: none, below, at, strictly above every lock, and the other unit
+        let mut abs_opts: Vec<Option<u32>> = vec![None];
+        for x in &af { abs_opts.extend([Some(x - 1), Some(*x), Some(x + 1), Some(x + 1000)]); }
+        if !af.is_empty() { abs_opts.push(Some(if af[0] < 500_000_000 { 500_000_500 } else { 400_000_000 })); }
+        let mut rel_opts: Vec<Option<u32>> = vec![None];
+        for x in &ol { let c = rel_canon(*x); rel_opts.extend([Some(c - 1), Some(c), Some(c + 1), Some(c + 100)]); }
+        if !ol.is_empty() { rel_opts.push(Some(rel_canon(ol[0]) ^ 0x0040_0000)); }
+        abs_opts.dedup(); rel_opts.dedup();
+        let pre_full: std::collections::BTreeSet<(HK, u32)> = { let mut hs = vec![]; for l in leaves { l.hashes(&mut hs); } hs.into_iter().collect() };
+        // key sources: per key one relation; all combinations for <= 2 keys, else "all keys with
+        // relation r" and "all exact but one with relation r"
+        let rels = [Rel::Exact, Rel::Parent, Rel::Grand, Rel::Child, Rel::Sibling, Rel::OtherFp];
+        let mut key_sets: Vec<Vec<(u32, Rel)>> = vec![vec![]];
+        for r in rels { key_sets.push(keys.iter().map(|k| (*k, r)).collect()); }
+        for (i, _) in keys.iter().enumerate() {
+            for r in [Rel::Parent, Rel::Child, Rel::OtherFp] {
+                key_sets.push(keys.iter().enumerate().map(|(j, k)| (*k, if i == j { r } else { Rel::Exact })).collect());
+            }
+            key_sets.push(keys.iter().enumerate().filter(|(j, _)| *j != i).map(|(_, k)| (*k, Rel::Exact)).collect());
+        }
+        for ks in &key_sets {
+            for abs in &abs_opts {
+                for rel in &rel_opts {
+                    for (pi, pre) in [pre_full.clone(), Default::default()].into_iter().enumerate() {
+                        if pi == 1 && pre_full.is_empty() { continue; }
+                        for tk in [false, true] {
+                            if tk && !tap { continue; }
+                            let mut srcs: Vec<Src> = vec![];
+                            for (k, r) in ks {
+                                if let Some(mut s) = Src::of(c17::kent(*k), *r) { s.key_spend = false; s.sighash_default = k % 2 == 0; srcs.push(s); }
+                            }
+                            if let (true, Some(ik)) = (tk, ik) {
+                                if let Some(mut s) = Src::of(c17::kent(*ik), Rel::Exact) { s.leaves = c17::Leaves::None; s.ecdsa = false; srcs.push(s); }
+                            }
+                            let pa = PA { srcs, pre: pre.clone(), abs: *abs, rel: *rel, ..Default::default() };
+                            // the key path is signable iff a key_spend source covers the internal key
+                            let tk_eff = ik.map(|ik| pa.srcs.iter().any(|s| s.key_spend && s.covers(c17::kent(ik)))).unwrap_or(false);
+                            let la = lean_assets_pa(dd, leaves, &pa, tap);
+                            let leaves_w = leaves.iter().map(|l| l.wire()).collect::<Vec<_>>().join(";");
+                            let head = format!("{} {} {} {} {} {}", wrap, ik.map(|i| i.to_string()).unwrap_or("-".into()), shape, leaves_w, la.wire(), tk_eff as u8);
+                            let assets = pa.to_assets(&dd.leaves);
+                            for mall in [true, false] {
+                                let mode = if mall { "mall" } else { "nonmall" };
+                                let orig = dd.desc.clone();
+                                let p = catch(|| if mall { orig.clone().into_plan_mall(&assets) } else { orig.clone().into_plan(&assets) });
+                                match p {
+                                    None => out.line(&format!("J nopanic into_plan-assets {} {} {} PANIC", mode, head, pa.wire()), "ok"),
+                                    Some(p) => {
+                                        let v = match p { Ok(_) => "ok", Err(d) => if d == orig { "errsame" } else { "errdiff" } };
+                                        n += 1;
+                                        out.line(&format!("J dplan {} {} {}", head, mode, v), "ok");
+                                        out.count(&format!("dplan-assets {} {} {}", wrap, mode, v));
+                                    }
+                                }
+                            }
+                        }
+                    }
+                }
+            }
+        }
+    }
+    out.note("plan_assets_cases", n.to_string());
+}
+
 pub fn run(out: &mut Out, thorough: bool, seed: u64) {
     let mut rng = Rng(seed ^ 0xC02);
     ast::emit_defs(out);
     msops::emit_sig_defs(out);
+    emit_wide_key_defs(out);
     let mut n_frag = 0u64;
     for ctx in CtxK::ALL {
         let atoms = ast::default_atoms(ctx, !thorough);
@@ -486,7 +832,10 @@ pub fn run(out: &mut Out, thorough: bool, seed: u64) {
             }
         }
     }
+    let n_des = run_designated(out, thorough, &mut rng);
+    out.note("designated_cases", n_des.to_string());
     run_desc(out, thorough, &mut rng);
+    run_plan_assets(out, thorough);
     out.note("distinct_nontrivial", n_frag.to_string());
     out.note("domain", "B-typed fragments (enumerated depth 3/4, random, corpora: j: wrappers, twin branches, raw pkh, uncompressed keys, all hash kinds) x concrete (nLockTime,nSequence) on both sides of every lock x subsets of keys, preimages, raw key/signature switches; descriptors wsh/shwsh/sh/bare/pkh/wpkh/shwpkh and tr over 11 tree shapes x key subsets x preimages/locks/key-path signature with real signatures".into());
 }
